@@ -11,6 +11,7 @@ import (
 	sdkmath "cosmossdk.io/math"
 	sdk "github.com/cosmos/cosmos-sdk/types"
 	banktypes "github.com/cosmos/cosmos-sdk/x/bank/types"
+	porttypes "github.com/cosmos/ibc-go/v8/modules/core/05-port/types"
 
 	adaptertypes "github.com/noble-assets/orbiter/v2/types/component/adapter"
 	executortypes "github.com/noble-assets/orbiter/v2/types/component/executor"
@@ -191,6 +192,8 @@ type Machine struct {
 	seq   uint64
 	// Strict: packets are serialised through the validating constructors.
 	Strict bool
+	// Stack, when set, replaces the world's transfer stack (the LAB world's stack).
+	Stack porttypes.IBCModule
 }
 
 func NewMachine(w *world.World) *Machine {
@@ -241,7 +244,11 @@ func (m *Machine) Do(s Step) Obs {
 		if Constructed(t) {
 			o.Run = RunActions(t.Denom, t.AmountInt(), t.Actions)
 		}
-		o.Out = world.Recv(m.Ctx, m.W.Stack, p)
+		stack := m.W.Stack
+		if m.Stack != nil {
+			stack = m.Stack
+		}
+		o.Out = world.Recv(m.Ctx, stack, p)
 	case s.Admin != nil:
 		msg, err := BuildAdmin(*s.Admin)
 		if err != nil {
